@@ -1,4 +1,6 @@
 // Archetype driver: the whole core API with the minimal scalar type vt::Arch.
 #include "arch.h"
 #include "drv_core.h"
+#include "drv_lvalue.h"
 template void vt::drive<vt::Arch>();
+template void vt::drive_lvalue<vt::Arch>();
